@@ -604,6 +604,9 @@ class FunctionParser(BaseParser):
     def parse_addition(self, key: str, value, context: RuntimeContext):
         if key in self.exclude_vars:
             # excluded vars cannot be carry in addition even if allowed
+            if context.options.addition is False:
+                # not dropped silently where unknown keys are refused (addition=False, implied by no_data_loss)
+                context.handle_error(exc.ExceedError(item=key, value=value))
             return unprovided
         var_key = f"**{self.kw_var}:{key}" if self.kw_var else key
         return super().parse_addition(var_key, value=value, context=context)
